@@ -329,7 +329,12 @@ def gen_case(rng, layout=None, force=None):
         'frame_mode': [None, None, None, None, 'numeric_as_string', 'column_dtypes'][int(rng.integers(6))],
         'pre_set': bool(rng.random() < 0.15),
         'em_alias': bool(rng.random() < 0.3), 'second_controller': bool(rng.random() < 0.3),
-        'history': gen_history(rng, dosing, order)}
+        'history': gen_history(rng, dosing, order),
+        # an earlier population model on the same controller (other covariates / none), with a posterior built
+        # from it, replaced by the case's own population model afterwards
+        'pop_history': ([None, None, 'reversed', 'fewer', 'plain'][int(rng.integers(5))]
+                        if has_pop and cov_names else ([None, None, 'plain'][int(rng.integers(3))]
+                                                       if has_pop else None))}
 
 
 # ----------------------------------------------------------------------------------------------
@@ -577,6 +582,26 @@ def build_controller(chi, case, frame=None):
         c.set_data(frame, **set_data_kwargs(case))
     except Exception as e:  # noqa
         return None, ('set_data', e)
+    if case.get('pop_history') and case['pop'] is not None:
+        alt = []
+        for kind, nd, cov in case['pop']:
+            if case['pop_history'] == 'reversed' and cov:
+                cov = list(cov)[::-1]
+            elif case['pop_history'] == 'fewer' and cov:
+                cov = list(cov)[1:] or None
+            elif case['pop_history'] == 'plain':
+                cov = None
+            alt.append([kind if kind != 'hetero' else 'pooled', nd, cov])
+        try:
+            c.set_population_model(make_pop(chi, alt))
+            c.set_log_prior(make_prior(c.get_n_parameters(), 2))
+            c.get_log_posterior()
+        except Exception:  # noqa
+            pass
+        try:
+            c.set_population_model(make_pop(chi, case['pop']))
+        except Exception as e:  # noqa
+            return None, ('setup', e)
     try:
         if case['pop'] is not None and case['order'] == 'B':
             c.set_population_model(make_pop(chi, case['pop']))
